@@ -9,7 +9,8 @@ from vmon.oracle.util import clone
 PROPERTY = "C10"
 RULE = ("Generated structures (all four term kinds, with/without tables and extra columns, unique atom ids). For each "
         "structure with N<=Nmax EVERY non-empty subset of atom indices is deleted from a fresh copy, listed sorted, "
-        "reversed and shuffled (list and numpy array); pop() and pop(i) for every i; random subsets for N up to 40. "
+        "reversed and shuffled (list and numpy array); pop() and pop(i) for every i; random subsets for N up to 40; "
+        "deletions from structures of 1e5..3e5 atoms whose terms sit on the last atoms (large index values). "
         "After each deletion the real object is resolved (type ids -> text) and compared with the reference model's "
         "delete. A case (= one structure) is non-trivial if some deletion removed a term and some term survived a "
         "deletion; distinct by generator seed.")
@@ -33,7 +34,27 @@ def cases(tier, seed):
     for j in range(nrand):
         out.append({"kind": "random", "n": int(rng.integers(8, 41)), "s": int(rng.integers(1 << 30)), "cell": ["ortho", "tri", None][j % 3],
                     "ndel": 6})
+    for j in range(3 if tier == "quick" else 40):
+        out.append({"kind": "large", "n": int([100200, 200300, 300100][j % 3] + rng.integers(0, 90)), "s": int(rng.integers(1 << 30)), "cell": "ortho", "ndel": 3})
     return out
+
+
+def _build_large(rng, n):
+    """more than 1e5 atoms, terms on the last 16 atoms: index values are large numbers"""
+    from mofun import Atoms
+    top = 16
+    atom_types = np.zeros(n, dtype=int)
+    atom_types[-top:] = rng.integers(0, 2, top)
+    atom_types[:2] = [0, 1]
+    kw = dict(atom_types=atom_types, positions=rng.uniform(0, 60, (n, 3)), atom_type_elements=["C", "O"], atom_type_masses=[12.011, 15.999],
+              atom_type_labels=["S_C0", "S_O1"], charges=1000.0 + np.arange(n) / 64.0, groups=np.zeros(n, dtype=int), cell=np.diag([60.0, 60.0, 60.0]))
+    for kind in atomsgen.KNAMES:
+        w = atomsgen.WIDTH[kind]
+        terms = [tuple(int(x) for x in n - top + rng.choice(top, size=w, replace=False)) for _ in range(4)]
+        kw[atomsgen.ARR[kind]] = terms
+        kw["%s_types" % kind] = [int(x) for x in rng.integers(0, 2, len(terms))]
+        kw["%s_type_coeffs" % kind] = ["S_%s_%d 1.%d" % (kind, t, t) for t in range(2)]
+    return Atoms(**kw)
 
 
 def _one(a, m0, ids, listing, ctx, st, what):
@@ -64,6 +85,18 @@ def run_case(case, ctx):
     rng = np.random.default_rng(case["s"])
     st = ctx.stats
     n = case["n"]
+    if case["kind"] == "large":
+        a = _build_large(rng, n)
+        m0 = AM.resolve(a)
+        ids = m0.ids()
+        for _ in range(case["ndel"]):
+            # a few atoms from the bulk (shifts every later index) and a few of the last 16 (removes terms)
+            sub = [int(x) for x in rng.choice(n - 16, size=int(rng.integers(0, 4)), replace=False)] + [int(x) for x in n - 16 + rng.choice(16, size=int(rng.integers(1, 4)), replace=False)]
+            rng.shuffle(sub)
+            _one(a, m0, [ids[i] for i in sub], sub, ctx, st, "del")
+            st.count("deletions_from_structures_with_more_than_1e5_atoms")
+        ctx.nontrivial(["large", case["s"], n])
+        return
     a = atomsgen.gen_atoms(rng, n, tag="S", cell=case["cell"], max_terms=5, unused_types=bool(rng.integers(2)))
     m0 = AM.resolve(a)
     ids = m0.ids()
@@ -121,6 +154,8 @@ def requirements(stats, tier):
         need.append("too few deletions observed: %d" % stats.get("deletions_checked"))
     if stats.nseen("kinds_present") < 4:
         need.append("not all four term kinds were present in some structure")
+    if stats.get("deletions_from_structures_with_more_than_1e5_atoms") < (9 if tier == "quick" else 120):
+        need.append("deletions from structures with more than 1e5 atoms: %d" % stats.get("deletions_from_structures_with_more_than_1e5_atoms"))
     if stats.get("pops_checked") < 20:
         need.append("pop not observed")
     if stats.get("contract_eval.C10.delitem_post") < stats.get("deletions_checked"):
